@@ -513,7 +513,7 @@ func (d *Decl) First(kind string) string {
 var declKeywords = map[string]bool{"func": true, "extern": true, "spec": true, "axiom": true, "lemma": true, "type": true, "global": true, "table": true, "ghost": true, "functype": true}
 var clauseKeywords = map[string]bool{"property": true, "enc": true, "requires": true, "ensures": true, "modifies": true, "onk": true, "nok": true,
 	"calls": true, "at-call": true, "bind": true, "let": true, "loop": true, "wraps": true, "lossy": true, "nowrap": true, "bounded": true,
-	"trusted": true, "terminates": true, "never-asserts": true, "never-calls": true, "fresh-per-iteration": true, "assumed-post": true, "checks": true, "uses": true, "inline": true, "at-event": true, "havoc": true, "claim": true, "param": true, "pure": true, "reads": true, "noinline": true, "kont": true,
+	"trusted": true, "every-iteration": true, "terminates": true, "never-asserts": true, "never-calls": true, "fresh-per-iteration": true, "assumed-post": true, "checks": true, "uses": true, "inline": true, "at-event": true, "havoc": true, "claim": true, "param": true, "pure": true, "reads": true, "noinline": true, "kont": true,
 	"assume-call": true, "ghost-set": true, "decreases": true, "nosafety": true, "safety": true, "note": true, "unfold": true, "fresh": true, "hint": true, "frozen": true, "deterministic": true, "recovers": true, "unify-result-checked": true, "resolves-before-inspecting": true, "trusted-frame": true, "at-store": true, "captures-copy": true, "defines": true, "on-recv": true, "allocates": true}
 
 var exprClauses = map[string]bool{"requires": true, "ensures": true, "onk": true, "nok": true, "claim": true, "defines": true}
